@@ -464,6 +464,7 @@ void GC_Sweep(struct GC* gc) {
   gc->mitems = gc->nitems + gc->nitems / 2 + 1;
   
   for (size_t i = 0; i < gc->freenum; i++) {
+    CELLO_VERIF_YIELD(6);
     if (gc->freelist[i]) {
       dealloc(destruct(gc->freelist[i]));
     }
@@ -501,6 +502,7 @@ static void GC_Del(var self) {
 
 static void GC_Set(var self, var key, var val) {
   struct GC* gc = self;
+  CELLO_VERIF_YIELD(5);
   if (not gc->running) { return; }
   gc->nitems++;
   gc->maxptr = (uintptr_t)key > gc->maxptr ? (uintptr_t)key : gc->maxptr;
